@@ -316,8 +316,11 @@ func (r *Router) installService(s *Service, lb *LoadBalancer, slot TargetSlot) (
 				s = current
 			} else {
 				// A deploy installs its own copy of the service. Bring the
-				// copy up to date with what is installed now.
+				// copy up to date with what is installed now, including the
+				// pause state: the installed service may not be the one the
+				// copy was made from.
 				s.active, s.rollout, s.rolloutController = current.loadBalancers()
+				s.pauseController = current.pauseController
 			}
 		} else if current == nil && slot == TargetSlotRollout {
 			return ErrorServiceNotFound
